@@ -68,7 +68,7 @@ def mc_case(draw):
     scn["table"] = [[draw(st.integers(1, 3)), draw(fl(0.1, 3.0)), 0] for _ in scn["entries"]]
     scn["table"][0][0] = 1
     scn["calc"] = "fast"
-    scn["names"] = draw(st.permutations(["zeta", "alpha", "mid", "beta"]).map(lambda p: list(p)[: len(scn["entries"])]))
+    scn["names"] = list(draw(st.permutations(["zeta", "alpha", "mid", "beta"])))
     return {"scn": scn, "steps": draw(st.integers(3, 12)), "g1": draw(st.integers(0, 2 ** 32 - 1)), "g2": draw(st.integers(0, 2 ** 32 - 1))}
 
 
